@@ -57,9 +57,21 @@ type vfScenario struct {
 	Post     bool                   `json:"post"` // stateful graphs: also install state post-handlers
 	HMod     bool                   `json:"hmod"` // state handlers modify the value they pass on (pre adds key "pre", post adds key "q<node>")
 	SMod     int                    `json:"smod"` // k > 0: the k-th resume call passes a state modifier that adds 100 to the counter
+	Echo     []string               `json:"echo"` // nodes that return their input unchanged (so equal keys can meet at a fan-in)
+	Wrap     bool                   `json:"wrap"` // (nested scenario) the inner graph is compiled alone and called from a lambda that wraps its errors
 }
 
+type vfSub struct{ X int }
+
 type vfState struct {
+	// fields that only have to survive the checkpoint round trip unchanged (pointers nil and non-nil, containers)
+	NilP   *int
+	P      *int
+	M      map[string]int
+	L      []string
+	Sub    *vfSub
+	NilSub *vfSub
+
 	Trail   []string
 	Count   int // number of critical sections performed on this state (read, yield, write back: lost updates show)
 	Saved   map[string]any
@@ -68,6 +80,24 @@ type vfState struct {
 
 func init() {
 	_ = RegisterSerializableType[vfState]("_verif_engine_state")
+	_ = RegisterSerializableType[vfSub]("_verif_engine_substate")
+}
+
+func vfNewState() *vfState {
+	seven := 7
+	return &vfState{P: &seven, M: map[string]int{"k": 1}, L: []string{"u", "v"}, Sub: &vfSub{X: 5}}
+}
+
+// digest of the carried fields; the fresh value is "true|7|1|u,v|5|true"
+func (s *vfState) digest() string {
+	p, sub := "nil", "nil"
+	if s.P != nil {
+		p = fmt.Sprint(*s.P)
+	}
+	if s.Sub != nil {
+		sub = fmt.Sprint(s.Sub.X)
+	}
+	return fmt.Sprintf("%v|%s|%d|%s|%s|%v", s.NilP == nil, p, s.M["k"], strings.Join(s.L, ","), sub, s.NilSub == nil)
 }
 
 type vfErr struct{ Node string }
@@ -262,7 +292,7 @@ func (r *vfRun) nodeLambda(prefix string, sc *vfScenario, name string) *Lambda {
 			// read the state and write the exec line inside the state lock: log order = lock order
 			err := ProcessState[*vfState](ctx, func(_ context.Context, st *vfState) error {
 				r.cs(st, prefix, "body", name)
-				r.rec.log(map[string]any{"ev": ev, "p": prefix, "n": name, "i": in, "st": append([]string{}, st.Trail...)})
+				r.rec.log(map[string]any{"ev": ev, "p": prefix, "n": name, "i": in, "st": append([]string{}, st.Trail...), "sx": st.digest()})
 				if isRerun && !abort {
 					delete(st.Pending, name)
 				}
@@ -300,10 +330,31 @@ func (r *vfRun) nodeLambda(prefix string, sc *vfScenario, name string) *Lambda {
 				if r.cancel != nil {
 					r.cancel()
 				}
+			case "serr":
+				// the body succeeds; its output stream carries an error item after the first chunk (see below)
 			}
 		}
 		r.rec.log(map[string]any{"ev": "done", "p": prefix, "n": name})
+		if vfIn(sc.Echo, name) {
+			if in == nil {
+				in = map[string]any{}
+			}
+			return in, nil
+		}
 		return map[string]any{name: map[string]any{"n": name, "i": vfNorm(in)}}, nil
+	}
+	if fail != nil && fail.Kind == "serr" {
+		return StreamableLambda(func(ctx context.Context, in map[string]any) (*schema.StreamReader[map[string]any], error) {
+			out, err := body(ctx, in)
+			if err != nil {
+				return nil, err
+			}
+			sr, sw := schema.Pipe[map[string]any](2)
+			sw.Send(out, nil)
+			sw.Send(nil, &vfErrWrap{Node: path, cause: vfEOFish{}})
+			sw.Close()
+			return sr, nil
+		})
 	}
 	if vfIn(sc.SNodes, name) {
 		return StreamableLambda(func(ctx context.Context, in map[string]any) (*schema.StreamReader[map[string]any], error) {
@@ -316,6 +367,12 @@ func (r *vfRun) nodeLambda(prefix string, sc *vfScenario, name string) *Lambda {
 	}
 	return InvokableLambda(body)
 }
+
+// cause of a mid-stream failure: matches both the harness sentinel and io.EOF (an error that merely WRAPS io.EOF is not end of stream)
+type vfEOFish struct{}
+
+func (vfEOFish) Error() string        { return "verif sentinel cause wrapping EOF" }
+func (vfEOFish) Is(target error) bool { return target == vfSentinel || target == ioEOF }
 
 type vfErrWrap struct {
 	Node  string
@@ -406,7 +463,7 @@ func (r *vfRun) branch(prefix string, idx int, b vfBranch) *GraphBranch {
 		for {
 			c, err := sr.Recv()
 			if err != nil {
-				if errors.Is(err, ioEOF) {
+				if err == ioEOF { // identity: an error that merely wraps io.EOF is a failure, not end of stream
 					return out, nil
 				}
 				return nil, err
@@ -488,7 +545,7 @@ func (r *vfRun) compileOpts(sc *vfScenario, store CheckPointStore) []GraphCompil
 
 func (r *vfRun) newGraphOpts(sc *vfScenario) []NewGraphOption {
 	if sc.State {
-		return []NewGraphOption{WithGenLocalState(func(ctx context.Context) *vfState { return &vfState{} })}
+		return []NewGraphOption{WithGenLocalState(func(ctx context.Context) *vfState { return vfNewState() })}
 	}
 	return nil
 }
@@ -539,6 +596,37 @@ func (r *vfRun) build(prefix string, sc *vfScenario) (AnyGraph, error) {
 			sg, err := r.build(prefix+n+"/", sub)
 			if err != nil {
 				return nil, err
+			}
+			if sub.Wrap {
+				// the inner graph compiled on its own and called from a lambda that wraps whatever it returns (as ToolsNode or user code do)
+				var inner Runnable[map[string]any, map[string]any]
+				if wf, isWf := sg.(*Workflow[map[string]any, map[string]any]); isWf {
+					inner, err = wf.Compile(context.Background(), r.compileOpts(sub, nil)...)
+				} else {
+					inner, err = sg.(*Graph[map[string]any, map[string]any]).Compile(context.Background(), r.compileOpts(sub, nil)...)
+				}
+				if err != nil {
+					return nil, err
+				}
+				name := n
+				lam := InvokableLambda(func(ctx context.Context, in map[string]any) (map[string]any, error) {
+					out, e := inner.Invoke(ctx, in)
+					if e != nil {
+						return nil, fmt.Errorf("wrapped by %s: %w", name, e)
+					}
+					return out, nil
+				})
+				var lopts []GraphAddNodeOpt
+				if sc.State {
+					lopts = append(lopts, WithStatePreHandler(r.preHandler(prefix, sc, n)))
+					if sc.Post {
+						lopts = append(lopts, WithStatePostHandler(r.postHandler(prefix, sc, n)))
+					}
+				}
+				if err = g.AddLambdaNode(n, lam, lopts...); err != nil {
+					return nil, err
+				}
+				continue
 			}
 			if err = g.AddGraphNode(n, sg, r.nodeOpts(prefix, sc, n)...); err != nil {
 				return nil, err
@@ -593,6 +681,8 @@ func vfClassify(err error) map[string]any {
 	case strings.Contains(msg, "context has been canceled") || strings.Contains(msg, "context canceled"):
 		out["class"] = "canceled"
 		out["is"] = errors.Is(err, context.Canceled)
+	case strings.Contains(msg, "duplicated key"):
+		out["class"] = "dup"
 	case strings.Contains(msg, "no tasks to execute"):
 		out["class"] = "stuck"
 	case strings.Contains(msg, "unknown node: end"):
@@ -672,7 +762,7 @@ func (r *vfRun) call(run Runnable[map[string]any, map[string]any], paradigm stri
 			for {
 				c, e := sr.Recv()
 				if e != nil {
-					if !errors.Is(e, ioEOF) {
+					if e != ioEOF {
 						o.err = e
 					}
 					break
@@ -845,7 +935,7 @@ func vfCaseLine(sc *vfScenario) map[string]any {
 	}
 	return map[string]any{"ev": "case", "id": sc.ID, "mode": sc.Mode, "nodes": vfL(sc.Nodes), "edges": edges, "branches": brs,
 		"max": sc.Max, "before": vfL(sc.Before), "after": vfL(sc.After), "rerun": vfL(sc.Rerun), "state": sc.State,
-		"fail": fails, "noid": sc.NoID, "subs": subs, "calls": vfL(sc.Calls), "post": sc.Post, "hmod": sc.HMod}
+		"fail": fails, "noid": sc.NoID, "subs": subs, "calls": vfL(sc.Calls), "post": sc.Post, "hmod": sc.HMod, "echo": vfL(sc.Echo)}
 }
 
 var ioEOF = func() error {
